@@ -106,7 +106,12 @@ def edits(rng, sd):
     d = clone()
     d.children.append(F.KeyD("*", "string", attr="star9"))
     out.append(("star-key", d))
+    d = clone()
+    d.children = [c for c in d.children if not (c.kind == "key" and c.name == "+")]
+    for frag in ("<key name='+' attribute=''/>", "<multikey name='+' attribute=''/>", "<key name='+' attribute=' '/>"):
+        out.append(("wildcard-needs-attribute-empty", _inject_last(F.render_xml(d), "  %s\n" % frag)))
     if sd.types:
+        out.append(("wildcard-needs-attribute-empty", _inject_last(F.render_xml(sd), "  <multisection type='%s' name='*' attribute=''/>\n" % sd.types[0].name)))
         d = clone()
         d.children.append(F.SectD(rng.choice(sd.types).name, rng.choice(["*", "+"]), False, False, None))
         out.append(("wildcard-needs-attribute", d))
@@ -194,6 +199,52 @@ def load_xml(xml):
         return ["exc", type(e).__name__, str(e)[:100]]
 
 
+def _import_src_rules(ctx):
+    """'unique type names' across <import src>: a type an imported document defines may not already exist in the importing
+    schema (defined locally before the import, or by an earlier import), whatever kind either is; a clean import is accepted"""
+    import os
+    import shutil
+    import tempfile
+    import ZConfig
+    root = tempfile.mkdtemp(prefix="zcv-c10i-", dir="/dev/shm" if os.path.isdir("/dev/shm") else None)
+    try:
+        def w(n, t):
+            with open(os.path.join(root, n), "w") as f:
+                f.write(t)
+        w("lib1.xml", "<schema><sectiontype name='server'><key name='port'/></sectiontype><sectiontype name='other1'/></schema>")
+        w("lib2.xml", "<schema><abstracttype name='Server'/><sectiontype name='other2'/></schema>")
+        w("lib3.xml", "<schema><sectiontype name='third'/></schema>")
+        docs = [
+            ("ok", "<schema><import src='lib1.xml'/><import src='lib3.xml'/><section type='server' name='s'/></schema>"),
+            ("ok", "<schema><sectiontype name='mine'/><import src='lib2.xml'/></schema>"),
+            ("reject", "<schema><sectiontype name='server'/><import src='lib1.xml'/></schema>"),
+            ("reject", "<schema><abstracttype name='SERVER'/><import src='lib1.xml'/></schema>"),
+            ("reject", "<schema><sectiontype name='other2'/><import src='lib2.xml'/></schema>"),
+            ("reject", "<schema><import src='lib1.xml'/><import src='lib2.xml'/></schema>"),
+            ("reject", "<schema><import src='lib2.xml'/><import src='lib1.xml'/></schema>"),
+            ("reject", "<schema><import src='lib3.xml'/><sectiontype name='third'/></schema>"),
+        ]
+        for want, xml in docs:
+            w("top.xml", xml)
+            try:
+                ZConfig.loadSchema(os.path.join(root, "top.xml"))
+                got = "ok"
+            except ZConfig.SchemaError:
+                got = "reject"
+            except Exception as e:
+                got = "exc:" + type(e).__name__
+            ctx.evaluations += 1
+            ctx.nontriv(("import-src", xml))
+            ctx.count("import-src:%s:%s" % (want, got))
+            if got != want:
+                ctx.violate("unique type names across <import src>: %s is %s (expected %s)" % (xml, got, want),
+                            {"schema_xml": xml, "lib1.xml": open(os.path.join(root, "lib1.xml")).read(),
+                             "lib2.xml": open(os.path.join(root, "lib2.xml")).read(), "lib3.xml": open(os.path.join(root, "lib3.xml")).read()},
+                            signature="C10:import-src-type-names:%s->%s" % (want, got))
+    finally:
+        shutil.rmtree(root, ignore_errors=True)
+
+
 def run(ctx):
     obligations, discharged, names = core.standard_prelude(ctx, ["ZCV.Props.C10"])
     rng = ctx.rng
@@ -235,6 +286,7 @@ def run(ctx):
             else:
                 ctx.violate("rule '%s' violated: the loader raised %s instead of SchemaError" % (rule, r2[1]), {"schema_xml": x, "rule": rule},
                             signature="C10:%s:%s" % (r2[0], rule))
+    _import_src_rules(ctx)
     # the Lean model of the schema loader (ZCV/Model/Elab.lean) on every one of these documents: same accept/reject,
     # same exception class, the model's reason contained in the real message, equal schema object when accepted
     elabrun.compare(ctx, "c10", all_docs)
